@@ -279,7 +279,7 @@ def check(ctx):
                 if short_path(c.path) in ("HashMap::retain", "HashMap::remove") and "StructInfo" in " ".join(c.generics + [c.self_ty or ""]):
                     # the predicate / key must come from type_mappings
                     texts = [f.describe_origin(f.origin(a), deep=3) for a in c.args]
-                    clos = [k for k in P.fns if k.startswith(fid + "::{closure")]
+                    clos = [k for k in P.family(fid) if "::{closure" in k]
                     uses = any("type_mappings" in t for t in texts)
                     for k in clos:
                         g = P.fns[k]
